@@ -46,3 +46,9 @@ func (hp *HTTPProxy) VerifObserveTrace(onRead func(req *http.Request, err error)
 func (hp *HTTPProxy) VerifErrorResponse(req *http.Request, err error) *http.Response {
 	return hp.errorResponse(req, err)
 }
+
+// VerifErrorStatus is a verification hook (build tag verif, add-only).
+// It builds a martian.ErrorStatus (the type lives in an internal package).
+func VerifErrorStatus(err error, status int) error {
+	return martian.ErrorStatus{Err: err, Status: status}
+}
